@@ -4038,7 +4038,12 @@ def header_content(chk, repo, fr):
     vok = bool(sv) and version is not None and all(ev.ev(n.ast.value, n) == version for n in sv)
     chk.ob(R, "_make_header::dtype-and-version", None if always is None else (always and vok), mh.where(), "_DTYPE and _VERSION (= SFILE_VERSION) are recorded on every path to the return")
     bev = Ev(repo, mh, flags={"self._delim": None})
-    bd = [bev.ev(n.ast.value, n) for n in stores(bev, "_DTYPE")]
+    # a store whose path condition says the file has a delimiter (through a local that holds `self._delim is not None` as well as through
+    # the test itself) is not on the binary path
+    _dl = ("attr", SELF, "_delim")
+    _canon = lambda atom, truth: canon_cmp(atom[1], atom[2], atom[3], truth) if atom[0] == "cmp" and len(atom) == 4 else (atom, truth)
+    text_only = lambda n: any((atom == ("cmp", "Is", _dl, NONE) and not truth) or (atom == _dl and truth) for atom, truth in (_canon(a_, t_) for a_, t_ in path_literals(bev, n)))
+    bd = [bev.ev(n.ast.value, n) for n in stores(bev, "_DTYPE") if not text_only(n)]
     descr = ("attr", ("attr", data, "dtype"), "descr")
     same = lambda t: t == descr or (t[0] == "call" and t[1] in ("list", "copy.copy", "copy.deepcopy") and t[2] == (descr,) and not t[3])
     if not bd or any(not same(t) and opaque(t) for t in bd):
